@@ -4,7 +4,7 @@
 (* must be exactly what the Symbols machine does for the same statement.                                *)
 (*                                                                                                      *)
 (* Events (one per executed source line, reformatted from the hook records by line order only):          *)
-(*   [a |-> "RESET", cs |-> BOOLEAN]                       a new program (file_begin)                     *)
+(*   [a |-> "RESET", cs |-> BOOLEAN, devs |-> <<..>>]      a new program; devs: deviations the machine has *)
 (*   [a |-> "PASS"]                                        pass_begin of pass 2, 3, ..                    *)
 (*   [a |-> "STMT", st |-> statement, obs |-> <<o..>>, err |-> BOOLEAN]   generated programs: the abstract *)
 (*        statement that was rendered into this line and what the hooks recorded while it was processed   *)
@@ -67,13 +67,13 @@ ApplyObs(st, os, k, forms, lenient) ==
        ELSE IF RefOK(st, o, forms, lenient) THEN ApplyObs(st, os, k + 1, forms, lenient)
             ELSE [ok |-> FALSE, s |-> st]
 
-TInit == s = InitS(FALSE) /\ l = 1 /\ perr = FALSE
+TInit == s = InitS(FALSE, PINNED) /\ l = 1 /\ perr = FALSE
 
 TNext ==
   /\ l <= Len(TraceLog)
   /\ l' = l + 1
   /\ LET e == TraceLog[l] IN
-       CASE e.a = "RESET" -> s' = InitS(e.cs) /\ perr' = FALSE
+       CASE e.a = "RESET" -> s' = InitS(e.cs, {d \in PINNED : \E k \in 1..Len(e.devs) : e.devs[k] = d}) /\ perr' = FALSE
          [] e.a = "PASS"  -> s' = NextPass(ExitPass(s)) /\ perr' = FALSE
          [] e.a = "STMT"  -> LET n == Step(s, e.st) IN
                                /\ ObsMatch(n.obs, e.obs)
@@ -82,7 +82,7 @@ TNext ==
          [] e.a = "SECT"    -> s' = DoSection(s, e.n) /\ Len(s'.stk) = e.sed /\ perr' = perr
          [] e.a = "ENDSECT" -> s' = [DoEndSection(s, e.n) EXCEPT !.errs = 0] /\ Len(s'.stk) = e.sed /\ perr' = perr
          [] e.a = "PP"      -> s' = [DoPP(s, e.k, N(e.n), e.q) EXCEPT !.errs = 0] /\ perr' = perr
-         [] OTHER           -> LET r == ApplyObs(s, e.obs, 1, {NoQ} \cup {q : q \in e.forms}, e.lenient) IN
+         [] OTHER           -> LET r == ApplyObs(s, e.obs, 1, {NoQ} \cup {e.forms[k] : k \in 1..Len(e.forms)}, e.lenient) IN
                                r.ok /\ s' = r.s /\ perr' = perr
 
 TSpec == TInit /\ [][TNext]_vars
